@@ -72,6 +72,12 @@ impl Dictionary {
         }
     }
 
+    /// (left id, right id, word cost) of a word.
+    pub fn verif_word_param(&self, lex_type: LexType, word_id: u32) -> (u16, u16, i16) {
+        let p = self.word_param(crate::dictionary::WordIdx::new(lex_type, word_id));
+        (p.left_id, p.right_id, p.word_cost)
+    }
+
     /// (number of right ids, number of left ids) of the connector.
     pub fn verif_conn_dims(&self) -> (usize, usize) {
         (self.connector().num_right(), self.connector().num_left())
